@@ -172,6 +172,7 @@ class History:
         self._tainted = tainted_groups
         self._start_errors = {}
         self._user_wrapped = set()
+        self._failed_group_scopes = set()
         self._group_scope = group_scope
         pre_started_end: set[int] = set()
         enter_info: dict[int, tuple] = {}         # sid -> (task, ncancel at entry, step)
@@ -298,6 +299,11 @@ class History:
                 if g_ is not None and errs and not to_starter:
                     expected.setdefault(g_, []).extend(errs)
                     self.flags.add("member_error")
+                    gs = group_scope.get(g_)
+                    if gs and g_ not in tainted_groups and snap["scopes"][gs]["active"]:
+                        self._failed_group_scopes.add(gs)
+                        if not ref_eff_cancelled(snap, gs):
+                            self.v("C02", f"step {i}: child {t} of group {g_} failed with {errs} but the group's scope {gs} is not (effectively) cancelled afterwards: the remaining tasks are not cancelled")
                     if t in via_start:
                         self._start_errors.setdefault(g_, []).extend(errs)
                     if t in via_start and t not in started_val:
@@ -531,6 +537,8 @@ class History:
                         self.flags.add("reach_nonempty")
                         if not sc["chandle"] or (3000 + c) not in snap["ready"]:
                             self.v("C03", f"step {i}: scope {c} is cancelled and task {t} (state {tk['state']}) is inside it with no shield in between, but no delivery callback is scheduled")
+                            if c in self._failed_group_scopes:
+                                self.v("C02", f"step {i}: a child of the group with scope {c} failed, but task {t} inside that scope is not being cancelled (no delivery scheduled)")
                     break
                 if sc["shield"]:
                     break
@@ -554,6 +562,9 @@ class History:
     def check_timers(self, prev, snap, op, i, explicit_cancel):
         now = snap["now"]
         for c, sc in snap["scopes"].items():
+            if not sc["active"] and (any(code == 6000 + c for (_w, code) in snap["timers"]) or (6000 + c) in snap["ready"]):
+                self.v("C05", f"step {i}: a deadline timer of scope {c} is armed although the scope is not active (never entered, or already left)")
+                self.v("C06", f"step {i}: a deadline timer of scope {c} is armed although the scope is not active")
             if sc["active"] and not sc["cancelled"] and sc["deadline"] >= 0:
                 armed = [(w, code) for (w, code) in snap["timers"] if code == 6000 + c]
                 fired = (6000 + c) in snap["ready"]
